@@ -372,34 +372,48 @@ Proof.
   intros Hw Hr. destruct w as [|x w]; [now apply alt_end_term|]. apply (blank1_term (x :: w) r). split; [discriminate|exact Hw].
 Qed.
 
+Lemma at_empty_alt_head x t : (x =? 124) = false -> at_empty_alt (x :: t) = false.
+Proof. intro H. unfold at_empty_alt. cbn [lit]. rewrite N.eqb_sym in H. now rewrite H. Qed.
+Lemma at_empty_alt_end r : alt_end r -> at_empty_alt r = true /\ space0 r = r.
+Proof. intros [->|(t & ->)]; split; reflexivity. Qed.
+Lemma set_text_nonempty cs s : set_text cs s -> cs <> [].
+Proof. intros [c t H|c t w H _|c t w cs' s' H _ _]; discriminate. Qed.
+Lemma compile_alt_set cs : cs <> [] -> compile_alt (ASet cs) = and_fold (flatten_opts (map comp_tbl cs)).
+Proof. destruct cs; [congruence|reflexivity]. Qed.
+
 Theorem range_p_alt a s r : alt_text a s -> alt_end r ->
   exists w0, blank_str w0 /\ range_p (s ++ r) = Some (compile_alt a, w0 ++ r).
 Proof.
-  intros H Hr. destruct H as [lo hi t1 w1 w2 t2 w3 H1 Hw1 Hw2 H2 Hw3|cs s Hs].
+  intros H Hr. destruct H as [lo hi t1 w1 w2 t2 w3 H1 Hw1 Hw2 H2 Hw3|cs s Hs|].
   - exists w3. split; [exact Hw3|]. unfold range_p.
-    destruct (partial_text_pstart t1 lo H1) as (c1 & t1' & E1 & Hc1). destruct (pstart_facts c1 Hc1) as (Sp1 & _).
+    destruct (partial_text_pstart t1 lo H1) as (c1 & t1' & E1 & Hc1). destruct (pstart_facts c1 Hc1) as (Sp1 & _ & _ & _ & _ & _ & B1 & _).
     destruct (partial_text_pstart t2 hi H2) as (c2 & t2' & E2 & Hc2). destruct (pstart_facts c2 Hc2) as (Sp2 & _).
     rewrite <- !app_assoc. cbn [app]. rewrite <- !app_assoc.
     assert (E0 : space0 (t1 ++ w1 ++ 45 :: w2 ++ t2 ++ w3 ++ r) = t1 ++ w1 ++ 45 :: w2 ++ t2 ++ w3 ++ r).
     { rewrite E1. cbn [app]. now apply space0_id_head. }
-    rewrite E0. unfold hyphen_p.
+    rewrite E0.
+    assert (Ee : at_empty_alt (t1 ++ w1 ++ 45 :: w2 ++ t2 ++ w3 ++ r) = false) by (rewrite E1; cbn [app]; now apply at_empty_alt_head).
+    rewrite Ee. unfold hyphen_p.
     rewrite (partial_text_fwd t1 lo _ H1 (blank1_term w1 _ Hw1)).
     rewrite (space1_fwd w1 _ Hw1) by reflexivity. cbn [lit1]. rewrite N.eqb_refl.
     rewrite (space1_fwd w2 (t2 ++ w3 ++ r) Hw2) by (rewrite E2; exact Sp2).
     rewrite (partial_text_fwd t2 hi (w3 ++ r) H2 (blank_or_end_term w3 r Hw3 Hr)).
     rewrite (at_alt_end_fwd w3 r Hw3 Hr). reflexivity.
   - exists []. split; [reflexivity|]. cbn [app]. unfold range_p.
-    destruct (set_text_head cs s Hs) as (x & t' & Es & Sp & _).
+    destruct (set_text_head cs s Hs) as (x & t' & Es & Sp & _ & B).
     assert (E0 : space0 (s ++ r) = s ++ r) by (rewrite Es; cbn [app]; now apply space0_id_head).
-    rewrite E0, (hyphen_p_set cs s r Hs Hr). cbn [compile_alt]. now apply simples_p_set.
+    assert (Ee : at_empty_alt (s ++ r) = false) by (rewrite Es; cbn [app]; now apply at_empty_alt_head).
+    rewrite E0, Ee, (hyphen_p_set cs s r Hs Hr). rewrite (compile_alt_set cs (set_text_nonempty cs s Hs)). now apply simples_p_set.
+  - exists []. split; [reflexivity|]. cbn [app]. unfold range_p. destruct (at_empty_alt_end r Hr) as (Ee & E0). now rewrite E0, Ee.
 Qed.
 
 (** ** the `||`-joined list through [bound_sets] *)
-Lemma alt_text_head a s : alt_text a s -> exists x t', s = x :: t' /\ is_space x = false.
+Lemma alt_text_head a s t : alt_text a s -> alt_end t -> not_head is_space (s ++ t).
 Proof.
-  intros [lo hi t1 w1 w2 t2 w3 H1 _ _ _ _|cs s0 Hs].
-  - destruct (partial_text_pstart t1 lo H1) as (c & t' & -> & Hc). destruct (pstart_facts c Hc) as (Sp & _). cbn [app]. eauto.
-  - destruct (set_text_head cs s0 Hs) as (x & t' & -> & Sp & _). eauto.
+  intros [lo hi t1 w1 w2 t2 w3 H1 _ _ _ _|cs s0 Hs|] Ht.
+  - destruct (partial_text_pstart t1 lo H1) as (c & t' & -> & Hc). destruct (pstart_facts c Hc) as (Sp & _). cbn [app]. exact Sp.
+  - destruct (set_text_head cs s0 Hs) as (x & t' & -> & Sp & _). exact Sp.
+  - now apply alt_end_not_space.
 Qed.
 Lemma ast_tail_end rest t : ast_tail_text rest t -> alt_end t.
 Proof. intros [|w a s rest' t' _ _ _]; [now left|right; eauto]. Qed.
@@ -423,9 +437,9 @@ Lemma ranges_tail_text rest t : ast_tail_text rest t -> forall f w0, blank_str w
 Proof.
   induction 1 as [|w a s rest t Hw Ha Ht IH]; intros f w0 H0 Hf.
   - rewrite app_nil_r. exists w0. destruct f; cbn [ranges_tail]; now rewrite (logical_or_blank w0 H0).
-  - destruct (alt_text_head a s Ha) as (x & s' & Es & Sp).
+  - pose proof (alt_text_head a s t Ha (ast_tail_end rest t Ht)) as Sp.
     destruct f as [|f]; [rewrite app_length in Hf; cbn in Hf; lia|]. cbn [ranges_tail].
-    rewrite (logical_or_fwd w0 w (s ++ t) H0 Hw) by (rewrite Es; exact Sp).
+    rewrite (logical_or_fwd w0 w (s ++ t) H0 Hw) by exact Sp.
     destruct (range_p_alt a s t Ha (ast_tail_end rest t Ht)) as (w1 & Hw1 & E). rewrite E.
     destruct (range_p_total (s ++ t)) as (bs & r' & E' & L). rewrite E in E'. injection E' as <- <-.
     destruct (IH f w1 Hw1) as (w' & Et).
@@ -463,7 +477,7 @@ Proof. intros [f p l t0 _ H|t0 _]; cbn; auto. eapply partial_text_dom; eauto. Qe
 Lemma set_text_dom cs s : set_text cs s -> Forall comp_dom cs.
 Proof. induction 1; repeat constructor; eauto using comp_text_dom. Qed.
 Lemma alt_text_dom a s : alt_text a s -> alt_dom a.
-Proof. intros [lo hi t1 w1 w2 t2 w3 H1 _ _ H2 _|cs s0 H]; cbn; eauto using partial_text_dom, set_text_dom. Qed.
+Proof. intros [lo hi t1 w1 w2 t2 w3 H1 _ _ H2 _|cs s0 H|]; cbn; eauto using partial_text_dom, set_text_dom. Qed.
 Lemma ast_tail_dom r t : ast_tail_text r t -> Forall alt_dom r.
 Proof. induction 1; constructor; eauto using alt_text_dom. Qed.
 Theorem ast_text_dom r s : ast_text r s -> Forall alt_dom r.
@@ -503,23 +517,36 @@ Proof.
     + rewrite <- !app_assoc. now constructor.
     + cbn. rewrite E. reflexivity.
 Qed.
-Lemma alt_text_trail a s w : alt_text a s -> blank_str w -> exists a', alt_text a' (s ++ w) /\ compile_alt a' = compile_alt a.
+Lemma alt_text_nil a : alt_text a [] -> a = ASet [].
 Proof.
-  intros H Hw. destruct w as [|x w]; [exists a; rewrite app_nil_r; auto|].
+  intro H. remember [] as s eqn:Es. destruct H as [lo hi t1 w1 w2 t2 w3 H1 _ _ _ _|cs s Hs|]; [exfalso|exfalso|reflexivity].
+  - destruct (partial_text_pstart t1 lo H1) as (c & t' & -> & _). discriminate.
+  - destruct (set_text_head cs s Hs) as (x & t' & E & _). congruence.
+Qed.
+(** blanks after a non-empty alternative belong to it (after an empty one they are the blanks of the [||] / of the start in front of it) *)
+Lemma alt_text_trail a s w : alt_text a s -> s <> [] -> blank_str w -> exists a', alt_text a' (s ++ w) /\ compile_alt a' = compile_alt a.
+Proof.
+  intros H Hne Hw. destruct w as [|x w]; [exists a; rewrite app_nil_r; auto|].
   assert (Hw1 : blank1 (x :: w)) by (split; [discriminate|exact Hw]).
-  destruct H as [lo hi t1 w1 w2 t2 w3 H1 Hw1' Hw2 H2 Hw3|cs s0 Hs].
+  destruct H as [lo hi t1 w1 w2 t2 w3 H1 Hw1' Hw2 H2 Hw3|cs s0 Hs|]; [| |congruence].
   - exists (AHyphen lo hi). split; [|reflexivity].
     replace ((t1 ++ w1 ++ 45 :: w2 ++ t2 ++ w3) ++ x :: w) with (t1 ++ w1 ++ 45 :: w2 ++ t2 ++ (w3 ++ x :: w)).
     + constructor; auto. now apply all_app.
     + rewrite <- !app_assoc. cbn [app]. now rewrite <- !app_assoc.
-  - destruct (set_text_trail cs s0 (x :: w) Hs Hw1) as (cs' & Hs' & E). exists (ASet cs'). split; [now constructor|]. cbn. now rewrite E.
+  - destruct (set_text_trail cs s0 (x :: w) Hs Hw1) as (cs' & Hs' & E). exists (ASet cs'). split; [now constructor|].
+    rewrite (compile_alt_set cs (set_text_nonempty _ _ Hs)), (compile_alt_set cs' (set_text_nonempty _ _ Hs')). now rewrite E.
 Qed.
 Lemma ast_tail_trail r t w : ast_tail_text r t -> r <> [] -> blank_str w -> exists r', ast_tail_text r' (t ++ w) /\ compile r' = compile r.
 Proof.
   induction 1 as [|w0 a s rest t Hw0 Ha Ht IH]; intros Hne Hw; [congruence|].
   destruct rest as [|b rest].
-  - inversion Ht; subst. destruct (alt_text_trail a s w Ha Hw) as (a' & Ha' & E). exists [a']. split.
-    + replace ((124 :: 124 :: w0 ++ s ++ []) ++ w) with (124 :: 124 :: w0 ++ (s ++ w) ++ []).
+  - inversion Ht; subst. destruct s as [|x0 s1].
+    { (* an empty last alternative: the blanks join those after its `||` *)
+      exists [a]. split; [|reflexivity]. rewrite (alt_text_nil a Ha) in *.
+      replace ((124 :: 124 :: w0 ++ [] ++ []) ++ w) with (124 :: 124 :: (w0 ++ w) ++ [] ++ []) by (cbn [app]; rewrite !app_nil_r; reflexivity).
+      constructor; [now apply all_app|apply AT_empty|constructor]. }
+    destruct (alt_text_trail a (x0 :: s1) w Ha ltac:(discriminate) Hw) as (a' & Ha' & E). exists [a']. split.
+    + replace ((124 :: 124 :: w0 ++ (x0 :: s1) ++ []) ++ w) with (124 :: 124 :: w0 ++ ((x0 :: s1) ++ w) ++ []).
       * constructor; auto; constructor.
       * cbn [app]. rewrite !app_nil_r. now rewrite <- !app_assoc.
     + cbn. now rewrite E.
@@ -538,8 +565,12 @@ Proof. unfold compile. apply flat_map_app. Qed.
 Lemma ast_text_trail r s w : ast_text r s -> blank_str w -> exists r', ast_text r' (s ++ w) /\ compile r' = compile r.
 Proof.
   intros [w0 a s0 rest t Hw0 Ha Ht] Hw. destruct rest as [|b rest].
-  - inversion Ht; subst. destruct (alt_text_trail a s0 w Ha Hw) as (a' & Ha' & E). exists [a']. split.
-    + replace ((w0 ++ s0 ++ []) ++ w) with (w0 ++ (s0 ++ w) ++ []) by (rewrite !app_nil_r; now rewrite <- !app_assoc).
+  - inversion Ht; subst. destruct s0 as [|x0 s1].
+    { exists [a]. split; [|reflexivity]. rewrite (alt_text_nil a Ha) in *.
+      replace ((w0 ++ [] ++ []) ++ w) with ((w0 ++ w) ++ [] ++ []) by (cbn [app]; rewrite !app_nil_r; reflexivity).
+      constructor; [now apply all_app|apply AT_empty|constructor]. }
+    destruct (alt_text_trail a (x0 :: s1) w Ha ltac:(discriminate) Hw) as (a' & Ha' & E). exists [a']. split.
+    + replace ((w0 ++ (x0 :: s1) ++ []) ++ w) with (w0 ++ ((x0 :: s1) ++ w) ++ []) by (rewrite !app_nil_r; now rewrite <- !app_assoc).
       constructor; auto; constructor.
     + cbn. now rewrite E.
   - destruct (ast_tail_trail (b :: rest) t w Ht ltac:(discriminate) Hw) as (r' & Hr' & E). exists (a :: r'). split.
@@ -596,11 +627,11 @@ Proof.
   unfold comps_of. apply flatten_opts_wf. induction cs as [|c cs IH]; cbn; constructor; auto.
   destruct c as [f p|]; cbn [comp_tbl]; [|exact I]. destruct f; cbn [tbl]; auto using partial_tbl_wf, primitive_tbl_wf, tilde_tbl_wf, caret_tbl_wf.
 Qed.
-Lemma compile_set cs : compile [ASet cs] = and_fold (comps_of cs).
-Proof. cbn. apply app_nil_r. Qed.
+Lemma compile_set cs : cs <> [] -> compile [ASet cs] = and_fold (comps_of cs).
+Proof. intro H. unfold compile. cbn [flat_map]. rewrite (compile_alt_set cs H). apply app_nil_r. Qed.
 Lemma parse_set_ok cs s A : set_text cs s -> r_parse s = ROk A -> A = and_fold (comps_of cs) /\ comps_of cs <> [].
 Proof.
-  intros H E. rewrite (layer_b _ s (set_ast cs s H)) in E. unfold parse_spec in E. rewrite compile_set in E.
+  intros H E. rewrite (layer_b _ s (set_ast cs s H)) in E. unfold parse_spec in E. rewrite (compile_set cs (set_text_nonempty _ _ H)) in E.
   destruct (and_fold (comps_of cs)) as [|x l] eqn:Ef; [discriminate|]. injection E as <-. split; [reflexivity|].
   intro E0. rewrite E0 in Ef. discriminate.
 Qed.
@@ -616,7 +647,8 @@ Proof.
   destruct (parse_set_ok cs1 s1 A (set_text0_set _ _ H1) EA) as (-> & N1).
   destruct (parse_set_ok cs2 s2 B H2 EB) as (-> & N2).
   assert (EC : forall v, sat_res C v = r_satisfies (and_fold (comps_of cs1 ++ comps_of cs2)) v).
-  { intro u. unfold C. rewrite (layer_b _ _ (set_ast _ _ (set_text_app cs1 s1 w cs2 s2 H1 Hw H2))), sat_spec, compile_set, comps_of_app. reflexivity. }
+  { intro u. unfold C. pose proof (set_text_app cs1 s1 w cs2 s2 H1 Hw H2) as H12.
+    rewrite (layer_b _ _ (set_ast _ _ H12)), sat_spec, (compile_set _ (set_text_nonempty _ _ H12)), comps_of_app. reflexivity. }
   pose proof (comps_of_wf cs1) as W1. pose proof (comps_of_wf cs2) as W2.
   rewrite EC. repeat split.
   - intro P. apply (and_fold_app_release _ _ v N1 N2 W1 W2 P).
@@ -649,12 +681,13 @@ Theorem hyphen_then_tokens lo hi t1 w1 w2 t2 w cs s r :
   Some (compile_alt (ASet (Comp FBare lo :: Garbage :: Comp FBare hi :: cs)), r).
 Proof.
   intros H1 Hw1 Hw2 H2 Hw Hs Hr. unfold range_p.
-  destruct (partial_text_pstart t1 lo H1) as (c1 & t1' & E1 & Hc1). destruct (pstart_facts c1 Hc1) as (Sp1 & _).
+  destruct (partial_text_pstart t1 lo H1) as (c1 & t1' & E1 & Hc1). destruct (pstart_facts c1 Hc1) as (Sp1 & _ & _ & _ & _ & _ & Bar1 & _).
   destruct (partial_text_pstart t2 hi H2) as (c2 & t2' & E2 & Hc2). destruct (pstart_facts c2 Hc2) as (Sp2 & _).
   destruct (set_text_head cs s Hs) as (x & s' & Es & Spx & _ & Nbx).
   set (whole := t1 ++ w1 ++ 45 :: w2 ++ t2 ++ w ++ s ++ r).
   assert (E0 : space0 whole = whole). { unfold whole. rewrite E1. cbn [app]. now apply space0_id_head. }
-  rewrite E0.
+  assert (Ee : at_empty_alt whole = false). { unfold whole. rewrite E1. cbn [app]. now apply at_empty_alt_head. }
+  rewrite E0, Ee.
   (* the hyphen parser succeeds, but more tokens follow *)
   assert (Eh : hyphen_p whole = Some (hyphen_tbl lo hi, w ++ s ++ r)).
   { unfold whole, hyphen_p. rewrite (partial_text_fwd t1 lo _ H1 (blank1_term w1 _ Hw1)).
